@@ -16,3 +16,152 @@ def lemma_sum_scale(x, t, c, M):
     for n in range(M):
         pass
     return None
+
+
+# ---- C07 / C06: a channel that is g times the other (relational lemmas over the kernel spec) -------------------
+# x2[i] == g * x1[i] for all i.  Per segment k: the windowed (detrended) DFT of channel 2 is g times that of
+# channel 1; summed over segments: MYY = g^2 MXX, mu_r = g MXX, mu_i = 0.
+
+
+def lemma_scaled_segment_mean(x1, x2, s, L, g):
+    # sum_{n<L} x2[s+n] == g * sum_{n<L} x1[s+n]
+    for n in range(L):
+        pass
+    return None
+
+
+def lemma_scaled_alpha(x1, x2, Q, s, L, P1, c, g):
+    # sum_{m<L} Q[m,c]*x2[s+m] == g * sum_{m<L} Q[m,c]*x1[s+m]
+    for m in range(L):
+        pass
+    return None
+
+
+def lemma_scaled_trend(x1, x2, Q, s, L, P1, n, g):
+    # sum_{c<P1} Q[n,c]*Alpha(x2,..,c) == g * sum_{c<P1} Q[n,c]*Alpha(x1,..,c)
+    for c in range(P1):
+        lemma_scaled_alpha(x1, x2, Q, s, L, P1, c, g)
+    return None
+
+
+def lemma_scaled_dft_win_only(x1, x2, w, starts, k, L, omega, g):
+    for n in range(L):
+        pass
+    return None
+
+
+def lemma_scaled_dft_detrend0(x1, x2, w, starts, k, L, omega, g):
+    lemma_scaled_segment_mean(x1, x2, starts[k], L, g)
+    for n in range(L):
+        pass
+    return None
+
+
+def lemma_scaled_dft_poly(x1, x2, w, starts, k, L, omega, Q, P1, g):
+    for n in range(L):
+        lemma_scaled_trend(x1, x2, Q, starts[k], L, P1, n, g)
+    return None
+
+
+def lemma_gain_win_only(x1, x2, w, starts, K, L, omega, g):
+    for k in range(K):
+        lemma_scaled_dft_win_only(x1, x2, w, starts, k, L, omega, g)
+    return None
+
+
+def lemma_gain_detrend0(x1, x2, w, starts, K, L, omega, g):
+    for k in range(K):
+        lemma_scaled_dft_detrend0(x1, x2, w, starts, k, L, omega, g)
+    return None
+
+
+def lemma_gain_poly(x1, x2, w, starts, K, L, omega, Q, P1, g):
+    for k in range(K):
+        lemma_scaled_dft_poly(x1, x2, w, starts, k, L, omega, Q, P1, g)
+    return None
+
+
+# ---- C06: scaling one channel of a pair (third channel y untouched) ------------------------------------------------
+
+
+def lemma_cross_scaling_win_only(x1, x2, y, w, starts, K, L, omega, g):
+    for k in range(K):
+        lemma_scaled_dft_win_only(x1, x2, w, starts, k, L, omega, g)
+    return None
+
+
+def lemma_cross_scaling_detrend0(x1, x2, y, w, starts, K, L, omega, g):
+    for k in range(K):
+        lemma_scaled_dft_detrend0(x1, x2, w, starts, k, L, omega, g)
+    return None
+
+
+def lemma_cross_scaling_poly(x1, x2, y, w, starts, K, L, omega, Q, P1, g):
+    for k in range(K):
+        lemma_scaled_dft_poly(x1, x2, w, starts, k, L, omega, Q, P1, g)
+    return None
+
+
+# ---- C08: adding a trend the detrending removes (channel 2 = channel 1 + trend) ---------------------------------------
+
+
+def lemma_shifted_segment_mean(x1, x2, s, L, c):
+    # x2 == x1 + c  =>  sum_{n<L} x2[s+n] == sum_{n<L} x1[s+n] + L*c
+    for n in range(L):
+        pass
+    return None
+
+
+def lemma_invariant_dft_detrend0(x1, x2, w, starts, k, L, omega, c):
+    lemma_shifted_segment_mean(x1, x2, starts[k], L, c)
+    for n in range(L):
+        pass
+    return None
+
+
+def lemma_constant_invariance_detrend0(x1, x2, y, w, starts, K, L, omega, c):
+    for k in range(K):
+        lemma_invariant_dft_detrend0(x1, x2, w, starts, k, L, omega, c)
+    return None
+
+
+def lemma_shifted_alpha2(x1, x2, Q, s, L, c, b0, b1):
+    # columns 0..1: sum_m Q[m,c]*x2[s+m] == sum_m Q[m,c]*x1[s+m] + b0*<Q_c,Q_0> + b1*<Q_c,Q_1>
+    for m in range(L):
+        pass
+    return None
+
+
+def lemma_shifted_alpha3(x1, x2, Q, s, L, c, b0, b1, b2):
+    for m in range(L):
+        pass
+    return None
+
+
+def lemma_invariant_dft_poly2(x1, x2, w, starts, k, L, omega, Q, b0, b1):
+    lemma_shifted_alpha2(x1, x2, Q, starts[k], L, 0, b0, b1)
+    lemma_shifted_alpha2(x1, x2, Q, starts[k], L, 1, b0, b1)
+    for n in range(L):
+        pass
+    return None
+
+
+def lemma_invariant_dft_poly3(x1, x2, w, starts, k, L, omega, Q, b0, b1, b2):
+    lemma_shifted_alpha3(x1, x2, Q, starts[k], L, 0, b0, b1, b2)
+    lemma_shifted_alpha3(x1, x2, Q, starts[k], L, 1, b0, b1, b2)
+    lemma_shifted_alpha3(x1, x2, Q, starts[k], L, 2, b0, b1, b2)
+    for n in range(L):
+        pass
+    return None
+
+
+def lemma_trend_invariance_poly2(x1, x2, y, w, starts, K, L, omega, Q, B0, B1):
+    for k in range(K):
+        lemma_invariant_dft_poly2(x1, x2, w, starts, k, L, omega, Q, B0[k], B1[k])
+    return None
+
+
+def lemma_trend_invariance_poly3(x1, x2, y, w, starts, K, L, omega, Q, B0, B1, B2):
+    for k in range(K):
+        lemma_invariant_dft_poly3(x1, x2, w, starts, k, L, omega, Q, B0[k], B1[k], B2[k])
+    return None
